@@ -618,10 +618,12 @@ def _propagate_new_locals(f, known):
     expression the reference tree would have written in place."""
     import copy
     decls = {}
+    types = {}
     for b in f.blocks.values():
         for ev in b['events']:
             if ev['ev'] == 'decl' and ev['var'].get('kind') == 'local':
                 decls[ev['var']['id']] = ev['var']['name']
+                types[ev['var']['id']] = ev['var'].get('t')
     cands = {vid: nm for vid, nm in decls.items() if nm not in known and not nm.startswith('$') and vid < SYNTH_ID}
     if not cands:
         return 0
@@ -674,6 +676,21 @@ def _propagate_new_locals(f, known):
         op_ids = {x['id'] for x in walk(rhs) if x.get('k') == 'ref' and x.get('kind') in ('local', 'param') and 'id' in x}
         op_fields = {x['field'] for x in walk(rhs) if x.get('k') == 'member'}
         has_mem = any(x.get('k') in ('sub',) or (x.get('k') == 'un' and x.get('op') == '*') for x in walk(rhs))
+        is_ptr_local = '*' in (types.get(vid) or '')
+        # pointers the expression reads memory through: a callee given such a pointer may change what was read
+        ptr_bases = set()
+        for x in walk(rhs):
+            bx = None
+            if x.get('k') == 'member' and x.get('arrow'):
+                bx = x.get('base')
+            elif x.get('k') == 'sub':
+                bx = x.get('base')
+            elif x.get('k') == 'un' and x.get('op') == '*':
+                bx = x.get('e')
+            while isinstance(bx, dict) and bx.get('k') == 'member':
+                bx = bx.get('base')
+            if isinstance(bx, dict) and bx.get('k') == 'ref' and 'id' in bx:
+                ptr_bases.add(bx['id'])
 
         def writes_operand(ev):
             if ev['ev'] == 'assign':
@@ -694,6 +711,10 @@ def _propagate_new_locals(f, known):
                 for a in ev['e']['args']:
                     if a.get('k') == 'un' and a.get('op') == '&' and isinstance(a.get('e'), dict) and \
                             a['e'].get('k') == 'ref' and a['e'].get('id') in op_ids:
+                        return True
+                    if a.get('k') == 'ref' and a.get('id') in ptr_bases and not is_ptr_local:
+                        # a scalar snapshot (a saved position, a length) goes stale when a callee is given
+                        # the object it was read from; an alias of a pointer field is assumed to stay valid
                         return True
             return False
 
